@@ -9,6 +9,7 @@ import (
 	"math/rand"
 	"os"
 	"os/exec"
+	"strconv"
 	"strings"
 	"sync"
 	"syscall"
@@ -445,6 +446,112 @@ func init() {
 			j := jobs[i]
 			experiment(j.name, j.site, j.k, j.arm, j.kill, j.atStart)
 		})
+		// ---- write transactions larger than SQLite's page cache: their pages reach the store file before
+		// the commit, so recovery depends on what the journal mode leaves on disk
+		bigExperiment := func(name, site string) {
+			dir, _ := os.MkdirTemp("", "verif-c04-")
+			defer os.RemoveAll(dir)
+			var tr []map[string]any
+			add := func(e map[string]any) { tr = append(tr, e) }
+			add(map[string]any{"ev": "Reset", "experiment": name})
+			c, err := start(dir, "", false)
+			if err != nil {
+				res.fail(Failure{Finding: "infra", What: "child did not start: " + err.Error()})
+				return
+			}
+			nc, err := nats.Connect(c.nats, nats.Timeout(5*time.Second), nats.MaxReconnects(0))
+			if err != nil {
+				c.cmd.Process.Kill()
+				res.fail(Failure{Finding: "infra", What: "connect: " + err.Error()})
+				return
+			}
+			client.SendNode(nc, data.NodeEdge{ID: "cA", Parent: c.root, Type: "device"}, "")
+			const n = 20000
+			mk := func(typ string) data.Points {
+				pts := make(data.Points, n)
+				now := time.Now()
+				for i := range pts {
+					pts[i] = data.Point{Type: typ, Key: strconv.Itoa(i), Value: float64(i), Time: now}
+				}
+				return pts
+			}
+			rootBefore, keyBefore := "", ""
+			send := func(b, typ string) bool {
+				add(map[string]any{"ev": "Issue", "b": b})
+				pts := mk(typ)
+				payload, _ := pts.ToPb()
+				m, err := nc.Request("p.cA", payload, 60*time.Second)
+				if err == nil && len(m.Data) == 0 {
+					add(map[string]any{"ev": "Ack", "b": b})
+					return true
+				}
+				return false
+			}
+			if !send("big1", "bigA") {
+				c.cmd.Process.Kill()
+				res.fail(Failure{Finding: "infra", What: "the first large batch was not acknowledged"})
+				return
+			}
+			rootBefore, keyBefore = readMeta(dir)
+			if _, err := nc.Request("verif.arm", []byte(site+"#1"), 2*time.Second); err != nil {
+				c.cmd.Process.Kill()
+				res.fail(Failure{Finding: "infra", What: "arming the crash site: " + err.Error()})
+				return
+			}
+			send("big2", "bigB")
+			nc.Close()
+			select {
+			case <-c.done:
+			case <-time.After(2 * time.Second):
+				c.cmd.Process.Signal(syscall.SIGKILL)
+				<-c.done
+			}
+			add(map[string]any{"ev": "Crash", "site": site + "#1 inside a large batch"})
+			c2, err := start(dir, "", false)
+			present := map[string]string{"big1": "none", "big2": "none"}
+			rec := map[string]any{"ev": "Recovered", "opens": err == nil, "rootSame": false, "keySame": false, "hashOK": false, "present": present}
+			if err == nil {
+				if nc2, err := nats.Connect(c2.nats, nats.Timeout(5*time.Second), nats.MaxReconnects(0)); err == nil {
+					rootAfter, keyAfter := readMeta(dir)
+					rec["rootSame"] = rootAfter == rootBefore && rootAfter != ""
+					rec["keySame"] = keyAfter == keyBefore && keyAfter != ""
+					if ns, err := client.GetNodes(nc2, "all", "cA", "", true); err == nil && len(ns) > 0 {
+						cnt := map[string]int{}
+						for _, p := range ns[0].Points {
+							cnt[p.Type]++
+						}
+						for b, typ := range map[string]string{"big1": "bigA", "big2": "bigB"} {
+							switch cnt[typ] {
+							case 0:
+								present[b] = "none"
+							case n:
+								present[b] = "all"
+							default:
+								present[b] = fmt.Sprintf("partial (%d of %d points)", cnt[typ], n)
+							}
+						}
+					}
+					err := client.AdminStoreVerify(nc2)
+					time.Sleep(100 * time.Millisecond)
+					rec["hashOK"] = err == nil && allOK(nc2, c2.root) && !strings.Contains(c2.stderr.String(), "Hash failed")
+					nc2.Close()
+				} else {
+					rec["opens"] = false
+					rec["error"] = "connect: " + err.Error()
+				}
+				c2.cmd.Process.Signal(syscall.SIGKILL)
+				<-c2.done
+			} else {
+				rec["error"] = err.Error() + " | " + c2.stderr.String()[max(0, c2.stderr.Len()-600):]
+			}
+			add(rec)
+			mu.Lock()
+			traces = append(traces, tr)
+			mu.Unlock()
+		}
+		for _, site := range []string{"np.upserted", "np.hashed"} {
+			bigExperiment("big:"+site, site)
+		}
 		f, err := os.Create(*traceOut)
 		if err != nil {
 			return err
